@@ -26,3 +26,24 @@ Proof.
   repeat split; auto.
 Qed.
 Print Assumptions C15_mode_spec.
+
+(* Part 3: the model is built and rendered without reference to the output mode.  Over the calls on the network object
+   found anywhere in cli.py (regenerated each run, with their argument text): the five calls that build and render
+   the network -- create_network, compile_network, gen_routing_info, render_package, render_network -- take no
+   argument at all, and the description is read from args.config only; so the package / top text of every mode is
+   the rendering of ONE network that does not know which mode is running (what seed C15-mut5 broke by passing
+   args.only_pkg into gen_routing_info). *)
+Definition mode_free (calls : list (string * string)) : bool :=
+  forallb (fun f => match filter (fun c => String.eqb (fst c) f) calls with
+                    | [c] => String.eqb (snd c) ""
+                    | _ => false
+                    end)
+          ["network.create_network"; "network.compile_network"; "network.gen_routing_info";
+           "network.render_package"; "network.render_network"] &&
+  match filter (fun c => String.eqb (fst c) "parse_config") calls with
+  | [c] => String.eqb (snd c) "Network, args.config"
+  | _ => false
+  end.
+Theorem C15_model_built_mode_free : mode_free cli_model_calls = true.
+Proof. vm_compute. reflexivity. Qed.
+Print Assumptions C15_model_built_mode_free.
